@@ -121,6 +121,10 @@ def brace_cases():
         out.append((f'===D===\nS::"{esc}"\nA::B{{c}}\n===END===\n', [("B{c}", "B<c>")], [esc]))
     out.append(("===D===\nA::X{a}\nL::[Y{b},Z{c}]\nB:\n  C::W{d}\n===END===\n", [("X{a}", "X<a>"), ("Y{b}", "Y<b>"), ("Z{c}", "Z<c>"), ("W{d}", "W<d>")], []))
     out.append(("===D===\nA::X<a>\nL::[Y<b>]\n===END===\n", [], []))
+    # a longer fence holding shorter backtick runs (zone content by the lexer's rule), with and without an info tag
+    out.append(("===D===\nK::\n````\n```inner\nPoint{x}\n```\nAlso{y}\n````\nLIVE::Foo{z}\n===END===\n", [("Foo{z}", "Foo<z>")], ["Point{x}", "Also{y}"]))
+    out.append(("===D===\nK::\n`````md\n```\nA{b}\n````\nC{d}\n`````\nLIVE::Foo{z}\n===END===\n", [("Foo{z}", "Foo<z>")], ["A{b}", "C{d}"]))
+    out.append(("===D===\nB:\n  ````\n  ``` x\n  P{q}\n  ````\n  K::R{s}\n===END===\n", [("R{s}", "R<s>")], ["P{q}"]))
     out.append(('===D===\nS::"x" // c "y" N{q}\nT::"p" \n// "z" M{r}\nA::K{v}\n===END===\n', [("K{v}", "K<v>")], ['c "y" N{q}', '"z" M{r}']))
     return out
 
